@@ -59,6 +59,16 @@ Theorem C07_exception_effect : forall code text c,
     c_ch0 c' = None.
 Proof. exact client_exception_effect. Qed.
 
+(* ... and the text of that Close fits an AMQP short string (at most 255 bytes), is a prefix of
+   the full text and is cut at a UTF-8 character boundary: the truncation cannot panic and the
+   frame is well formed whatever the offending frame's rendering contains *)
+Theorem C07_exception_text : forall text,
+  (length (trunc255 text) <= 255)%nat /\
+  (exists rest, text = trunc255 text ++ rest) /\
+  ((length text <= 255)%nat -> trunc255 text = text) /\
+  is_boundary text (length (trunc255 text)).
+Proof. exact trunc255_spec. Qed.
+
 Theorem C07_exception_ignores : forall c f,
   c_phase c = PClientException -> process c f = (OOk, c).
 Proof. exact exception_ignores_frames. Qed.
@@ -99,6 +109,11 @@ Check C07_exception_effect : forall code text c,
     c_phase c' = PClientException /\ ob_sealed (c_out c') = true /\
     ob (c_out c') = ob (c_out c) ++ ser_conn_close code (trunc255 text) /\
     c_ch0 c' = None.
+Check C07_exception_text : forall text,
+  (length (trunc255 text) <= 255)%nat /\
+  (exists rest, text = trunc255 text ++ rest) /\
+  ((length text <= 255)%nat -> trunc255 text = text) /\
+  is_boundary text (length (trunc255 text)).
 Check C07_exception_ignores : forall c f,
   c_phase c = PClientException -> process c f = (OOk, c).
 
@@ -109,5 +124,6 @@ Print Assumptions C07_overrun.
 Print Assumptions C07_out_of_sequence.
 Print Assumptions C07_exception_codes.
 Print Assumptions C07_exception_effect.
+Print Assumptions C07_exception_text.
 Print Assumptions C07_exception_ignores.
 Print Assumptions C07_example.
